@@ -4,6 +4,7 @@
 import abc
 import calendar
 import collections
+import copy
 import datetime
 import enum
 import random
@@ -417,11 +418,11 @@ class TlsHandshakeClientHello(TlsHandshakeHello):  # pylint: disable=too-many-in
         validator=attr.validators.instance_of(TlsCipherSuiteVector)
     )
     protocol_version = attr.ib(
-        default=TlsProtocolVersion(TlsVersion.TLS1_2),
+        default=attr.Factory(lambda: TlsProtocolVersion(TlsVersion.TLS1_2)),
         validator=attr.validators.instance_of(TlsProtocolVersion),
     )
     random = attr.ib(
-        default=TlsHandshakeHelloRandom(),
+        default=attr.Factory(TlsHandshakeHelloRandom),
         validator=attr.validators.instance_of(TlsHandshakeHelloRandom),
     )
     session_id = attr.ib(
@@ -542,11 +543,11 @@ class TlsHandshakeClientHello(TlsHandshakeHello):  # pylint: disable=too-many-in
 @attr.s
 class TlsHandshakeServerHello(TlsHandshakeHello):
     protocol_version = attr.ib(
-        default=TlsProtocolVersion(TlsVersion.TLS1_2),
+        default=attr.Factory(lambda: TlsProtocolVersion(TlsVersion.TLS1_2)),
         validator=attr.validators.instance_of(TlsProtocolVersion),
     )
     random = attr.ib(
-        default=TlsHandshakeHelloRandom(),
+        default=attr.Factory(TlsHandshakeHelloRandom),
         validator=attr.validators.instance_of(TlsHandshakeHelloRandom),
     )
     session_id = attr.ib(
@@ -857,11 +858,11 @@ TLS_HANDSHAKE_HELLO_RETRY_REQUEST_RANDOM = TlsHandshakeHelloRandom.parse_exact_s
 class TlsHandshakeHelloRetryRequest(TlsHandshakeHello):
     cipher_suite = attr.ib(default=None, validator=attr.validators.in_(TlsCipherSuite))
     protocol_version = attr.ib(
-        default=TlsProtocolVersion(TlsVersion.TLS1_3),
+        default=attr.Factory(lambda: TlsProtocolVersion(TlsVersion.TLS1_3)),
         validator=attr.validators.instance_of(TlsProtocolVersion),
     )
     random_bytes = attr.ib(
-        default=TLS_HANDSHAKE_HELLO_RETRY_REQUEST_RANDOM,
+        default=attr.Factory(lambda: copy.deepcopy(TLS_HANDSHAKE_HELLO_RETRY_REQUEST_RANDOM)),
         validator=attr.validators.instance_of(TlsHandshakeHelloRandom),
     )
     session_id = attr.ib(
